@@ -792,7 +792,9 @@ def _policy_extras(mon, rec):
         def __len__(self):
             return 0
     for cls in (IterProbe, SeqProbe, MapProbe):
-        for text, want in (('$q.pub', 'PUB'), ("$q['pub']", 'ITEM:pub'), ('$q.meth()', 'METH0'), ('$q.other', None), ("$q['other']", None)):
+        for text, want in (('$q.pub', 'PUB'), ("$q['pub']", 'ITEM:pub'), ('$q.meth()', 'METH0'), ('$q.other', None), ("$q['other']", None),
+                           ('$q?.pub', 'PUB'), ('$q?.other', None), ('$q?._priv', None), ('$q?.meth()', 'METH0'), ('$q._priv', None),
+                           ('[$q].other', None), ('[$q].pub', ['PUB']), ('[$q]?.other', None), ('$q?.other?.len()', None)):
             q = cls()
             yaqlization.yaqlize(q, blacklist=['other'])
             out = mon.run(text, {'q': q})
